@@ -543,18 +543,13 @@ def KnownTrailingComment (text : Line) : Bool :=
       endsWith ['&'] (lineCode l) || startsWith ['&'] ((lineCode l).dropWhile isWs)) &&
     (toks .code l).any (fun t => match t with | .ch .com _ => true | _ => false)
 
-def isEndDo (l : Line) : Bool := (lineCode l).filter (fun c => !isWs c) == "enddo".toList
-
-/-- `fix-enclosing-while-regenerated`: a reported statement in the body of a DO construct that is not itself reported
-(the conservative writer has no INVALID_CHILDREN branch for `WhileLoop`: header and END DO are regenerated) -/
-def enclosingDo (rs : List (Nat × Nat)) : Nat → List Line → Bool
+/-- `fix-while-loop-regenerated`: a DO (WHILE) construct of the routine that is not itself reported (the conservative
+writer has no INVALID_CHILDREN branch for `WhileLoop`: header, END DO and the literals of the header are regenerated) -/
+def unreportedDo (rs : List (Nat × Nat)) : Nat → List Line → Bool
   | _, [] => false
-  | i, l :: rest =>
-    (lineKw "do" l && !inRanges rs i &&
-      (let e := i + 1 + (rest.takeWhile (fun x => !isEndDo x)).length
-       rs.any fun r => i < r.1 && r.2 < e)) || enclosingDo rs (i + 1) rest
+  | i, l :: rest => (lineKw "do" l && !inRanges rs i) || unreportedDo rs (i + 1) rest
 
-def KnownEnclosingDo (text : Line) (rs : List (Nat × Nat)) : Bool := enclosingDo rs 1 (splitNl text [])
+def KnownEnclosingDo (text : Line) (rs : List (Nat × Nat)) : Bool := unreportedDo rs 1 (splitNl text [])
 
 /-- `fix-nested-report-skipped`: a reported node lies inside another reported node (ELSE IF branch, body statement) -/
 def KnownNestedReport (rs : List (Nat × Nat)) : Bool :=
